@@ -49,7 +49,7 @@ InitState == [side |-> "client", sc |-> 0, last |-> "Init", now |-> 0,
   \* connection
   ehdr |-> FALSE, eframes |-> 0, eopens |-> 0, ecloses |-> 0, ecloseErr |-> FALSE, eeof |-> FALSE,
   phdr |-> "none", popen |-> FALSE, pclose |-> FALSE, pcloseErr |-> "", pcloseHeard |-> FALSE, peof |-> FALSE, illegal |-> FALSE, garbage |-> FALSE,
-  oblClose |-> FALSE, openRet |-> "none", closeRet |-> "none", hook |-> FALSE, tol |-> 2, timedOut |-> FALSE, panics0 |-> -1, lidle |-> -1, shutAfterIllegal |-> FALSE, illegalWhat |-> "", badAttach |-> "-", badAttachPending |-> FALSE,
+  oblClose |-> FALSE, openRet |-> "none", closeRet |-> "none", hook |-> FALSE, tol |-> 2, timedOut |-> FALSE, panics0 |-> -1, lidle |-> -1, shutAfterIllegal |-> FALSE, illegalWhat |-> "", deadAt |-> 0, callAt |-> <<>>, appTeardown |-> FALSE, lastAlive |-> 0, lastPending |-> 0, badAttach |-> "-", badAttachPending |-> FALSE,
   emfs |-> 512, pmfs |-> 512, echmax |-> 65535, pchmax |-> 65535, eidle |-> -1, pidle |-> -1, lastE |-> 0, lastP |-> 0, openAt |-> -1,
   ss |-> <<>>, ls |-> <<>>, pendCfg |-> <<>>, pendSess |-> <<>>]
 
@@ -273,7 +273,7 @@ H_EFrame(s, r, l) ==
       chan == IF r.perf \in {"attach", "detach", "transfer", "flow", "disposition"} /\ SessByE(s, r.ch) > 0 /\ ~LiveE(s.ss[SessByE(s, r.ch)])
               THEN 0 ELSE 0
       \* a reaction to an illegal frame: the EUT shuts a scope down with an error (a plain close / end / detach issued by the application later does not count)
-      s9 == IF s.illegal /\ r.perf \in {"close", "end", "detach"} /\ r.f.err # "" THEN [h.s EXCEPT !.shutAfterIllegal = TRUE] ELSE h.s
+      s9 == IF s.illegal /\ r.perf \in {"close", "end", "detach"} /\ (r.f.err # "" \/ ~s.appTeardown) THEN [h.s EXCEPT !.shutAfterIllegal = TRUE] ELSE h.s
   IN R(s9, pre + h.f + chan)
 
 \* ---------------------------------------------------------------- peer frames
@@ -358,7 +358,7 @@ H_PFrame(s, r, l) ==
        (IF s.popen \/ r.ch # 0 THEN R(IllegalW(s1, "second-open"), 0)
         ELSE R([s1 EXCEPT !.popen = TRUE, !.pmfs = Max(r.f.mfs, 512), !.pchmax = r.f.chmax, !.pidle = r.f.idle, !.openAt = r.t], 0))
   ELSE IF ~s.popen THEN R([Illegal(s1) EXCEPT !.pclose = (@ \/ r.perf = "close")], 0)
-  ELSE IF r.perf = "close" THEN R([s1 EXCEPT !.pclose = TRUE, !.pcloseErr = r.f.err, !.pcloseHeard = TRUE, !.oblClose = TRUE], 0)
+  ELSE IF r.perf = "close" THEN R([s1 EXCEPT !.pclose = TRUE, !.pcloseErr = r.f.err, !.pcloseHeard = TRUE, !.oblClose = TRUE, !.deadAt = IF @ = 0 THEN l ELSE @], 0)
   ELSE IF s.pclose THEN R(s1, 0)          \* nothing is expected of frames after the peer's close
   ELSE CASE r.perf = "begin" -> H_PBegin(s1, r, l)
          [] r.perf = "end" -> H_PEnd(s1, r, l)
@@ -393,7 +393,7 @@ H_ApiCall(s, r, l) ==
   ELSE IF r.op = "set_credit" THEN
        LET k == LinkByName(s, r.lname, FALSE) IN
        IF k = 0 THEN R(s, 0) ELSE R(SetL(s, k, [s.ls[k] EXCEPT !.expectLc = r.args.n, !.touched = TRUE]), 0)
-  ELSE IF r.scope # "" /\ r.lname # "" THEN
+  ELSE IF r.scope # "" /\ r.lname # "" /\ r.op # "await_outcome" THEN
        \* any operation on a link counts as the application touching it
        LET k == LastIdx(s.ls, LAMBDA y : y.name = r.lname /\ y.eAtt) IN
        IF k = 0 THEN R(s, 0) ELSE R(SetL(s, k, [s.ls[k] EXCEPT !.touched = TRUE]), 0)
@@ -405,7 +405,8 @@ H_RecvRet(s, r, l) ==
   LET y == s.ls[k] j == FirstIdx(y.inq, Eligible) IN
   IF ~r.res.ok
   THEN \* an error result consumes nothing the observer can name; a contradictory or over-limit delivery is dropped with it
-       R(SetL(s, k, [y EXCEPT !.inq = SelectSeq(@, LAMBDA e : ~e.contra /\ ~(e.complete /\ e.aborted)), !.broken = TRUE]), 0)
+       R(SetL(s, k, [y EXCEPT !.inq = SelectSeq(@, LAMBDA e : ~e.contra /\ ~(e.complete /\ e.aborted)), !.broken = TRUE, !.errTold = TRUE]),
+         Chk("C13_PeerError", ~(y.pDet /\ y.pDetFirst /\ y.pDetErr # "" /\ ~y.errTold) \/ r.res.cond = y.pDetErr, l, "recv"))
   ELSE IF j = 0 THEN R(s, Fail("C10_NotBefore", l, "") + (IF \E n \in DOMAIN y.inq : y.inq[n].m = r.res.m /\ y.inq[n].contra THEN Fail("C10_Contradiction", l, "") ELSE 0)
                                 + (IF \E n \in DOMAIN y.inq : y.inq[n].m = r.res.m /\ y.inq[n].aborted THEN Fail("C10_Abort", l, "") ELSE 0))
   ELSE LET e == y.inq[j] IN
@@ -431,7 +432,9 @@ H_ApiRet(s, r, l) ==
          \* error-free notification RemoteClosed; never as an error carrying a condition
          + Chk("C12_CloseResult_Clean", ~(s.pcloseHeard /\ s.pcloseErr = "" /\ ~s.illegal /\ s.ecloses = 1 /\ ~s.ecloseErr /\ ~s.garbage)
                                         \/ r.res.ok \/ (r.res.class = "RemoteClosed" /\ r.res.cond = ""), l, r.res.class)
-         + Chk("C13_TeardownWaits", ~(r.op = "close" /\ r.res.ok) \/ s.pcloseHeard \/ s.peof, l, "close"))
+         + Chk("C13_TeardownWaits", ~(r.op = "close" /\ r.res.ok) \/ s.pcloseHeard \/ s.peof, l, "close")
+         \* the connection handle reports a transport failure itself
+         + Chk("C14_ConnHandle", ~(s.peof /\ ~s.pcloseHeard /\ s.ecloses = 0) \/ ~r.res.ok, l, ""))
   ELSE IF r.op = "begin" THEN
        \* a begin that cannot get a channel within channel-max is refused locally with the dedicated error
        R(s, Chk("C17_RefusedLocally", r.res.ok \/ r.res.class # "LocalChannelMaxReached" \/ Cardinality({i \in DOMAIN s.ss : LiveE(s.ss[i])}) > Min(s.echmax, s.pchmax), l, "")
@@ -474,6 +477,27 @@ H_ApiRet(s, r, l) ==
        IF k = 0 \/ s.ls[k].sendsIssued <= s.ls[k].delsDone THEN R(s, 0) ELSE R(SetL(s, k, [s.ls[k] EXCEPT !.sendsIssued = @ - 1]), 0)
   ELSE R(s, 0)
 
+\* ---------------------------------------------------------------- failures propagate (C14)
+DataPath == {"begin", "accept_session", "attach_sender", "attach_receiver", "accept_link", "send", "send_batchable", "await_outcome", "recv", "dispose", "set_credit", "drain"}
+ConnDead(s) == s.peof \/ s.pclose \/ s.eeof
+StartedAt(s, c) == LET i == LastIdx(s.callAt, LAMBDA x : x.call = c) IN IF i = 0 THEN 0 ELSE s.callAt[i].line
+\* the session a link-scoped call belongs to has been ended by the peer
+SessEndedFor(s, lname) == LET k == LastIdx(s.ls, LAMBDA y : y.name = lname /\ y.eAtt) IN
+                          k > 0 /\ SessByE(s, s.ls[k].ech) > 0 /\ s.ss[SessByE(s, s.ls[k].ech)].pEnded
+SessErrFor(s, lname) == LET k == LastIdx(s.ls, LAMBDA y : y.name = lname /\ y.eAtt) IN s.ss[SessByE(s, s.ls[k].ech)].pEndErr
+FailureClauses(s, r, l) ==
+  IF r.op \notin DataPath THEN 0 ELSE
+    \* a data-path call issued after the connection broke must fail
+    Chk("C14_DataPathErr", ~(ConnDead(s) /\ s.deadAt > 0 /\ StartedAt(s, r.call) > s.deadAt) \/ ~r.res.ok, l, r.op)
+    \* a call on a link whose session the peer has ended must fail
+  + Chk("C14_DataPathErr", ~(r.lname # "" /\ SessEndedFor(s, r.lname) /\ r.op \in {"send", "send_batchable", "recv", "dispose"}) \/ ~r.res.ok, l, "after-end")
+    \* the error names the scope that stopped ...
+  + Chk("C14_Level", r.res.ok \/ ~(ConnDead(s) /\ s.deadAt > 0 /\ StartedAt(s, r.call) > s.deadAt) \/ r.res.says_conn, l, r.op)
+  + Chk("C14_Level", r.res.ok \/ ConnDead(s) \/ r.lname = "" \/ ~SessEndedFor(s, r.lname) \/ (r.res.says_sess /\ ~r.res.says_conn), l, "session")
+    \* ... and carries the peer's condition when one was supplied
+  + Chk("C14_PeerCondition", r.res.ok \/ ~(s.pcloseHeard /\ s.pcloseErr # "" /\ StartedAt(s, r.call) > s.deadAt) \/ r.res.cond = s.pcloseErr, l, r.op)
+  + Chk("C14_PeerCondition", r.res.ok \/ ConnDead(s) \/ r.lname = "" \/ ~SessEndedFor(s, r.lname) \/ SessErrFor(s, r.lname) = "" \/ r.res.cond = SessErrFor(s, r.lname), l, "session")
+
 \* ---------------------------------------------------------------- quiescence: obligations
 H_Quiesce(s, r, l) ==
   LET up == ConnUp(s) /\ ~s.hook          \* a task parked at an armed schedule point is not expected to make progress
@@ -488,7 +512,7 @@ H_Quiesce(s, r, l) ==
                     who == IF y.blockedBy = "window" THEN "C07_Drain" ELSE IF y.blockedBy = "credit" THEN "C08_Wake"
                            ELSE IF winSlack <= credSlack THEN "C07_Drain" ELSE "C08_Wake"
                 IN Fail(who, l, IF Stuck(s, k) = "stuck" THEN "dev_ok" ELSE "dev_closed")
-  IN R([s EXCEPT !.ls = ls2, !.panics0 = IF @ < 0 THEN r.panics ELSE @],
+  IN R([s EXCEPT !.ls = ls2, !.panics0 = IF @ < 0 THEN r.panics ELSE @, !.lastAlive = r.alive, !.lastPending = Len(r.pending)],
          Chk("C12_CloseReply_Q", ~(s.oblClose /\ ~s.eeof), l, "")
        + Chk("C12_IllegalClosed_Q", ~s.illegal \/ s.ecloses > 0 \/ s.eeof \/ ~Listening(s), l, "")
        + Chk("C12_OpenReturns_Q", ~(OpenShouldSucceed(s) /\ s.openRet = "pending" /\ ~s.pclose /\ ~s.peof), l, "")
@@ -515,6 +539,14 @@ H_Quiesce(s, r, l) ==
              IF \E k \in DOMAIN s.ls : s.ls[k].aborts > 0 THEN "after_abort" ELSE "")
        + fStuck)
 
+\* no call is left pending on a scope that has stopped
+DeadScope(s, p) == \/ ConnDead(s)
+                   \/ (p.sess # "" /\ \E i \in DOMAIN s.ss : s.ss[i].name = p.sess /\ (s.ss[i].pEnded \/ s.ss[i].eEnded))
+                   \/ (p.lname # "" /\ \E k \in DOMAIN s.ls : s.ls[k].name = p.lname /\ s.ls[k].eAtt /\ s.ls[k].pDet)
+RECURSIVE PendingFails(_, _, _, _)
+PendingFails(s, ps, i, l) == IF i > Len(ps) THEN 0 ELSE (IF DeadScope(s, ps[i]) THEN Fail("C14_Completes", l, ps[i].op) ELSE 0) + PendingFails(s, ps, i + 1, l)
+PendingClauses(s, r, l) == PendingFails(s, r.pending, 1, l)
+
 \* ---------------------------------------------------------------- one step
 Step(s, r, l) ==
   LET res ==
@@ -526,13 +558,15 @@ Step(s, r, l) ==
       [] r.ev = "PHeader" -> H_PHeader(s, r, l)
       [] r.ev = "PFrame" -> H_PFrame(s, r, l)
       [] r.ev = "PRaw" -> R([s EXCEPT !.garbage = TRUE], 0)
-      [] r.ev = "PEof" -> R([s EXCEPT !.peof = TRUE], 0)
-      [] r.ev = "PReset" -> R([s EXCEPT !.peof = TRUE], 0)
-      [] r.ev = "ApiCall" -> H_ApiCall(s, r, l)
-      [] r.ev = "ApiRet" -> H_ApiRet(s, r, l)
+      [] r.ev = "PEof" -> R([s EXCEPT !.peof = TRUE, !.deadAt = IF @ = 0 THEN l ELSE @], 0)
+      [] r.ev = "PReset" -> R([s EXCEPT !.peof = TRUE, !.deadAt = IF @ = 0 THEN l ELSE @], 0)
+      [] r.ev = "ApiCall" -> H_ApiCall([s EXCEPT !.callAt = Append(@, [call |-> r.call, line |-> l]), !.appTeardown = (@ \/ r.op \in {"close", "end", "detach", "close_link"})], r, l)
+      [] r.ev = "ApiDrop" -> R([s EXCEPT !.appTeardown = TRUE], 0)
+      [] r.ev = "ApiRet" -> LET h == H_ApiRet(s, r, l) IN R(h.s, h.f + FailureClauses(s, r, l))
       [] r.ev = "Quiesce" -> H_Quiesce(s, r, l)
       [] r.ev = "End" -> R(s, Chk("C15_IllegalHandled", ~s.illegal \/ s.shutAfterIllegal, l, s.illegalWhat) + Chk("C15_NoHang", Len(r.pending) = 0 \/ ~(s.peof \/ s.pclose \/ s.eeof), l, "") + Chk("C15_NoPanic", r.panics = s.panics0 \/ s.panics0 < 0, l, "end")
-                              + Chk("C14_Completes", Len(r.pending) = 0 \/ ~(s.peof \/ s.pclose \/ s.eeof), l, ""))
+                              + PendingClauses(s, r, l)
+                              + Chk("C14_TasksEnd", ~ConnDead(s) \/ s.lastAlive <= Len(r.pending), l, ""))
       [] r.ev = "Spin" -> R(s, Fail("C15_Quiesces", l, "spin"))
       [] r.ev = "Hook" -> R([s EXCEPT !.hook = (r.op = "arm")], 0)
       [] r.ev = "Advance" -> R([s EXCEPT !.tol = Max(@, r.step + 2)], 0)
